@@ -307,6 +307,16 @@ func init() {
 						}
 						ls = append(ls, p)
 					}
+					if r.P(1, 8) {
+						// a densely sampled track: every segment is far shorter than a tile (1e-11 .. 1e-7 tile)
+						x0, y0 := c14tilePoint(r, z, cx, cy, rad)
+						step := math.Pow(10, -float64(r.Range(7, 11)))
+						ls = ls[:0]
+						for i := 0; i < n; i++ {
+							ls = append(ls, tileToLonLat(x0+step*float64(i), y0+step*float64(i%3), z))
+						}
+						c.Count("tiny_segment_lines", 1)
+					}
 					fr := fractions(ls, zoom)
 					if polyLen(fr) == 0 {
 						return // outside the domain: no positive length
@@ -443,6 +453,15 @@ func init() {
 					if len(pg) == 1 {
 						if g, err := tilecover.Ring(pg[0].Clone(), zoom); err != nil || !sameSet(g, cover) {
 							c.Fail("", "tilecover.Ring differs from the cover of the one-ring polygon", map[string]interface{}{"polygon": sv(pg), "zoom": z, "err": sv(err)})
+						}
+					}
+					// a bare ring as a member of a collection is covered like the ring
+					if rc, err := tilecover.Ring(pg[0].Clone(), zoom); err == nil {
+						g1, err1 := tilecover.Geometry(orb.Collection{pg[0].Clone()}, zoom)
+						g2, err2 := tilecover.Geometry(orb.Collection{orb.Collection{pg[0].Clone(), orb.Point(pg[0][0])}}, zoom)
+						c.Evals(2)
+						if err1 != nil || err2 != nil || !sameSet(g1, rc) || !sameSet(g2, rc) {
+							c.Fail("", "the cover of a collection holding a ring (flat or nested) is not the cover of the ring", map[string]interface{}{"ring": sv(pg[0]), "zoom": z, "ring_tiles": len(rc), "flat_tiles": len(g1), "nested_tiles": len(g2), "err": sv(err1) + sv(err2)})
 						}
 					}
 					// collection / multi-polygon = union; bound = all tiles of the range
